@@ -41,6 +41,12 @@ def make_op(o: int, nops: int, positions: List[int], curved: bool = True):
         # a projected side, an arc on the top face and a spline on a side edge: stale faces/edges after
         # clear/delete/backport would show in the file
         op.project_side("front", "geo")
+        # corners shared with the neighbours carry a projection of their own from either side: a vertex two operations
+        # share is projected to both labels, and to one of them only once the other operation is gone
+        for c in (5, 6):
+            op.project_corner(c, "geoR")
+        for c in (4, 7):
+            op.project_corner(c, "geoL")
         # edge data is user data: it stays where the user put it, whatever happens to the vertices later
         base = [pos_coords(base_pos(o, k)) for k in range(1, 9)]
         mid = [(base[4][i] + base[5][i]) / 2 for i in range(3)]
@@ -115,6 +121,8 @@ def new_mesh():
 
     mesh = cb.Mesh()
     mesh.add_geometry({"geo": ["type searchablePlane", "planeType pointAndNormal", "point (0 0 0)", "normal (0 1 0)"]})
+    mesh.add_geometry({"geoL": ["type searchablePlane", "planeType pointAndNormal", "point (0 0 1)", "normal (0 0 1)"]})
+    mesh.add_geometry({"geoR": ["type searchablePlane", "planeType pointAndNormal", "point (0 0 1)", "normal (0 0 1)"]})
     return mesh
 
 
